@@ -204,14 +204,24 @@ def gen_replicate(rng, big):
 DOM = {"int": [0, 1, 2], "float": [0.5, 1.0, 2.25], "str": ["a", "b", "c c"]}
 
 
-def gen_rank(rng, big):
+# order values on which "equal", "prints alike" and "hashes alike" come apart: floats that differ in the last ulp(s) (and agree
+# to 15 significant digits), signed zeros (equal, printed differently), integers beyond 2^53 (distinct, equal once turned into floats)
+EDGE = {"float": [[0.1 + 0.2, 0.3, 0.5], [0.0, -0.0, 1.0], [1.0, 1.0000000000000002, 2.0], [0.7, 0.1 * 7, -0.0], [1e16, 1e16 + 2.0, 0.0]],
+        "int": [[2 ** 53, 2 ** 53 + 1, 0], [2 ** 53 + 1, 2 ** 53 + 2, -(2 ** 53) - 1]]}
+
+
+def gen_rank(rng, big, edge=None):
     nrows = rng.choice([0, 1, 2, 3, 4, 5, 6, 7, 8] + ([12, 16] if big else []))
     npb, nob = rng.choice([0, 1, 1, 2]), rng.choice([1, 1, 2])
-    spec, pb, ob = [], [], []
+    if edge is None:
+        edge = rng.random() < 0.25
+    spec, pb, ob, dom = [], [], [], {}
     for i in range(npb):
         spec.append((f"g{i}", rng.choice(["int", "str"]))); pb.append(f"g{i}")
     for i in range(nob):
-        spec.append((f"x{i}", rng.choice(["int", "float", "str"]))); ob.append(f"x{i}")
+        ty = rng.choice(["float", "float", "int"] if edge else ["int", "float", "str"])
+        spec.append((f"x{i}", ty)); ob.append(f"x{i}")
+        dom[f"x{i}"] = rng.choice(EDGE[ty]) if edge else DOM[ty]
     spec += _extra_cols(rng, set(), rng.randint(0, 2))
     rng.shuffle(spec)
     null_part = rng.random() < 0.25
@@ -222,7 +232,7 @@ def gen_rank(rng, big):
             if c in pb:
                 r.append(None if (null_part and rng.random() < 0.25) else rng.choice(DOM[ty][:2]))
             elif c in ob:
-                r.append(rng.choice(DOM[ty]))
+                r.append(rng.choice(dom[c]))
             else:
                 r.append(pipes.gen_value(rng, ty, 0.2))
         rows.append(r)
@@ -339,22 +349,28 @@ def ref_replicate(case):
     return cols + [a["seq"]], out
 
 
+def _raw_okey(r, cols):
+    """order key on the RAW cell values: Python compares ints and floats exactly (2**53 + 1 > 2.0**53, 0.0 == -0.0)"""
+    return tuple((1, 0, r[c]) if isinstance(r[c], str) else (0, r[c], "") for c in cols)
+
+
 def ref_rank(case):
     """'the rank of each item is the average of all items with same order position', e.g. [1, 1, 2] -> [1.5, 1.5, 3]; per partition"""
     a = case.args
     cols, rows = _rows(case, "d")
+    raw = [dict(zip(cols, r)) for r in case.tables["d"]["rows"]]        # exact values for ordering and tie groups
     pb, ob = a["partition_by"] or [], a["order_by"]
     parts = {}
-    for i, r in enumerate(rows):
+    for i, r in enumerate(raw):
         parts.setdefault(tuple(r[c] for c in pb), []).append(i)
     rank = {}
     for idx in parts.values():
-        srt = sorted(idx, key=lambda i: _okey(rows[i], ob))
+        srt = sorted(idx, key=lambda i: _raw_okey(raw[i], ob))
         pos = {}
         for p, i in enumerate(srt, 1):
-            pos.setdefault(_okey(rows[i], ob), []).append(p)
+            pos.setdefault(_raw_okey(raw[i], ob), []).append(p)
         for i in idx:
-            ps = pos[_okey(rows[i], ob)]
+            ps = pos[_raw_okey(raw[i], ob)]
             rank[i] = sum(ps) / len(ps)
     return cols + [a["rank"]], [dict(r, **{a["rank"]: rank[i]}) for i, r in enumerate(rows)]
 
@@ -615,7 +631,7 @@ def run(chk):
         "results are compared as multisets of rows with the suite's 1e-8 relative tolerance; column order is not compared"]
     chk.cov["rule"] = ("per helper N random VALID calls through the real helper on random small tables (0..9 rows quick, up to 18 thorough): replicate: "
                        "max_count from a pool with powers of two and their neighbours, counts forced to include 1 and max_count; rank: 0..2 partition columns "
-                       "(25% of cases with null keys), 1..2 order columns over 3-value domains (ties); LOCF: 0..2 partition columns, distinct order values, null runs "
+                       "(25% of cases with null keys), 1..2 order columns over 3-value domains (ties; 25% of cases over edge domains: floats differing in the last ulp, signed zeros, ints beyond 2^53); LOCF: 0..2 partition columns, distinct order values, null runs "
                        "leading / trailing / in the middle / everywhere; multimap: 1..2 row keys, 1..3 mapped columns, unmapped and null values, mapping tables shared "
                        "or not between columns, entries for unlisted columns, optional coalesce / rename; non-trivial = at least 2 input rows; distinct by call+tables")
     cases = []
@@ -685,8 +701,8 @@ def run(chk):
     if getattr(chk, "pending_breaks", None) and not chk.violations:
         extra = 150 if chk.tier == "quick" else 600
         for h in HELPERS:
-            for _ in range(extra):
-                c = GEN[h](rng, True)
+            for k in range(extra):
+                c = gen_rank(rng, True, edge=True) if (h == "rank" and k % 2 == 0) else GEN[h](rng, True)
                 try:
                     c.build()
                 except Exception:
